@@ -324,6 +324,16 @@ def save_check(kind, case, rec):
             kw["forces"] = forces
         if gradient is not None:
             kw["gradient"] = gradient
+        # the documented user dictionaries: per-point and per-cell arrays (scalars and vectors) written next to the default data
+        user_p, user_c = {}, {}
+        if case["seed"] % 3 != 0:
+            user_c = {"Volume": np.asarray(region.dV).sum(0), "Tag": rng.integers(0, 5, mesh.ncells).astype(float)}
+            if case["seed"] % 2:
+                user_c["Direction"] = rng.standard_normal((mesh.ncells, 3))
+            kw["cell_data"] = {k_: [v_] for k_, v_ in user_c.items()}
+        if case["seed"] % 4 >= 2:
+            user_p = {"Temperature": rng.standard_normal(mesh.npoints)}
+            kw["point_data"] = dict(user_p)
         fem.save(region, fc, filename=fn, **kw)
         try:
             mm = meshio.read(fn)
@@ -365,6 +375,17 @@ def save_check(kind, case, rec):
         expected_keys = {"Displacements"} | ({"Reaction Force"} if forces is not None else set())
         if gradient is not None:
             expected_keys |= {"Cauchy Stress", "Cauchy Stress (Max. Principal)", "Cauchy Stress (Int. Principal)", "Cauchy Stress (Min. Principal)", "Cauchy Stress (Max. Principal Shear)"}
+        expected_keys |= set(user_p)
+        for k_, v_ in user_p.items():
+            if k_ in mm.point_data:
+                rec.close("user-point-data-unchanged", float(np.abs(np.asarray(mm.point_data[k_]).reshape(v_.shape) - v_).max()) if np.asarray(mm.point_data[k_]).size == v_.size else float("inf"), 0.0)
+        rec.require("cell-data-is-exactly-what-was-passed", set(mm.cell_data) == set(user_c), sorted(set(mm.cell_data) ^ set(user_c)))
+        for k_, v_ in user_c.items():
+            if k_ in mm.cell_data:
+                got = np.asarray(mm.cell_data[k_][0])
+                rec.close("user-cell-data-unchanged", float(np.abs(got.reshape(v_.shape) - v_).max()) if got.size == v_.size else float("inf"), 0.0, k_)
+        if user_c:
+            rec.label("user-cell-data")
         rec.require("point-data-is-exactly-what-was-passed", set(mm.point_data) == expected_keys, sorted(set(mm.point_data) ^ expected_keys))
         rec.require("points", np.array_equal(np.asarray(mm.points)[:, :dim], np.asarray(mesh.points)))
         rec.require("cells", len(mm.cells) == 1 and np.array_equal(np.asarray(mm.cells[0].data), np.asarray(mesh.cells)))
